@@ -99,6 +99,19 @@ register("C20",
          "TLA+ reader/store models checked by TLC + TLC trace validation of files written and read by the implementation",
          "DESIGN.md §4 C20")
 
+register("C09",
+         "FullIndex.tla models the array construction operationally (shell-major tile/repeat of directions and radii, nested "
+         "loops position-outer rotation-inner, tile/repeat index helpers, order-preserving de-duplication) and TLC checks "
+         "it against div/mod for all n_t, n_o, n_b <= 4 and index sequences with repeats, with three modelled order slips "
+         "as negative configs. Real FullGrids (algorithm combinations x n_b in {1,2,5,8} x n_o in {1,3,7,12} x 1/2/4 radii, "
+         "both position modes) are projected row by row to the ids of their generating direction / radius / rotation, the "
+         "index helpers are called on None, single indices, random sequences and the reversed range, the decomposition is "
+         "matched back, and TLC validates every record (row order, radii = 10 x nm input, helpers = div/mod, "
+         "decomposition = identity).",
+         "Row matching at 1e-9 (directions) / 1e-12 (rotations); sizes as listed.",
+         "TLA+ index-arithmetic model checked by TLC + TLC trace validation of projected implementation outputs",
+         "DESIGN.md §4 C09")
+
 ALL = [f"C{i:02d}" for i in range(1, 21)]
 
 
